@@ -1,34 +1,75 @@
 //! C12: the real `HedgeLayer` over the scripted inner service.
 //!
-//! header: `hedge max=<n> d=<ms> [ds=<ms>,<ms>,…] [kind=fixed|imm|fn]`
+//! header: `hedge max=<n> d=<ms> [ds=<ms>,<ms>,…] [kind=fixed|imm|fn] [unit=ms|us]`
 //!   kind=fixed : `.delay(d)`                      (also the default when no kind is given)
 //!   kind=imm   : `.no_delay()`
 //!   kind=fn    : `.delay_fn(|n| ds[n-1] or d beyond the list)`   (n is 1-indexed, as in the crate)
+//!   unit=us    : `d` and `ds` are microseconds (`Duration::from_micros`); default milliseconds
+//! arrive: `warm=<ms|never>,…` — readiness of the *fresh clones* of the inner service made for this request:
+//!   the i-th fresh clone (i ≥ 1) whose readiness is polled reports `Pending` until `warm[i-1]` ms after its
+//!   first `poll_ready` (`never`: for ever, no wake-up); beyond the list (and without `warm=`) clones are ready
+//!   at once and nothing is logged. A listed clone logs `inner_warm <c> <i> <w>` at its first readiness poll.
+//!   The instance the adapter itself polls ready and calls (the primary's) is always ready.
 //! Attempts are spawned tasks; the `Obs` wrapper around `world::Inner` reports the order in which
 //! attempts that were waiting on their timer complete (`@done=<serial>` on the op line): that order
 //! is decided by tokio's timer wheel / run queue, and the model takes it as an observed choice.
 use crate::world::*;
 use std::future::Future;
 use std::pin::Pin;
+use std::collections::{BTreeMap, VecDeque};
 use std::sync::atomic::{AtomicU64, Ordering};
-use std::sync::Arc;
+use std::sync::{Arc, Mutex};
 use std::task::{Context, Poll};
 use std::time::Duration;
 use tower::{Layer, Service};
 use tower_resilience_hedge::{Hedge, HedgeError, HedgeLayer};
 
-/// Transparent wrapper: same calls, same results; only reports timer-driven completions.
-#[derive(Clone)]
-pub struct Obs {
-    inner: Inner,
+/// What the clones of one case share: the serial counter and the readiness plans of the requests.
+#[derive(Default)]
+pub struct Shared {
     /// number of inner calls made so far in this case = serial of the next one (the adapter is
     /// created per case and every inner call goes through this wrapper)
-    calls: Arc<AtomicU64>,
+    calls: AtomicU64,
+    /// request on whose behalf the adapter is cloning the layer right now (inherited by clones of that clone)
+    cur: Mutex<Option<usize>>,
+    /// per request: remaining warm-up plan (`None` = never ready) and number of fresh clones polled so far;
+    /// registered by the adapter after it has driven the primary's instance itself
+    warm: Mutex<BTreeMap<usize, (VecDeque<Option<u64>>, usize)>>,
+    /// per request: serial of its first attempt that completed successfully
+    first_ok: Mutex<BTreeMap<usize, u64>>,
+}
+
+enum Warm {
+    /// readiness not polled yet
+    Fresh,
+    Warming(Pin<Box<tokio::time::Sleep>>),
+    Never,
+    Ready,
+}
+
+/// Wrapper around `world::Inner`: same calls, same results; reports timer-driven completions and gives
+/// fresh clones the scripted readiness.
+pub struct Obs {
+    inner: Inner,
+    sh: Arc<Shared>,
+    req: Option<usize>,
+    st: Warm,
+    /// attempt number of this instance (0: the instance the adapter drove, i: the i-th fresh clone polled)
+    att: usize,
+    /// became ready by waiting on its warm-up timer
+    waited: bool,
+}
+impl Clone for Obs {
+    fn clone(&self) -> Obs {
+        let req = self.req.or(*self.sh.cur.lock().unwrap());
+        Obs { inner: self.inner.clone(), sh: self.sh.clone(), req, st: Warm::Fresh, att: 0, waited: false }
+    }
 }
 pub struct ObsFut {
     f: InnerFut,
     k: u64,
     was_pending: bool,
+    sh: Arc<Shared>,
 }
 impl Future for ObsFut {
     type Output = Result<Resp, IErr>;
@@ -44,6 +85,9 @@ impl Future for ObsFut {
             Ok(Poll::Ready(x)) => {
                 if was_pending {
                     obs("done", k);
+                }
+                if let Ok(r) = &x {
+                    self.sh.first_ok.lock().unwrap().entry(r.c).or_insert(k);
                 }
                 Poll::Ready(x)
             }
@@ -61,17 +105,77 @@ impl Service<Req> for Obs {
     type Error = IErr;
     type Future = ObsFut;
     fn poll_ready(&mut self, cx: &mut Context<'_>) -> Poll<Result<(), IErr>> {
+        if let Warm::Fresh = self.st {
+            self.st = Warm::Ready;
+            if let Some(c) = self.req {
+                let mut plans = self.sh.warm.lock().unwrap();
+                if let Some((plan, n)) = plans.get_mut(&c) {
+                    *n += 1;
+                    self.att = *n;
+                    match plan.pop_front() {
+                        None => {}
+                        Some(w) => {
+                            let ws = w.map(|x| x.to_string()).unwrap_or_else(|| "never".into());
+                            log(format!("inner_warm {} {} {}", c, self.att, ws));
+                            match w {
+                                Some(0) => {}
+                                Some(ms) => self.st = Warm::Warming(Box::pin(tokio::time::sleep(Duration::from_millis(ms)))),
+                                None => self.st = Warm::Never,
+                            }
+                        }
+                    }
+                }
+            }
+        }
+        match &mut self.st {
+            Warm::Never => return Poll::Pending,
+            Warm::Warming(s) => {
+                if s.as_mut().poll(cx).is_pending() {
+                    return Poll::Pending;
+                }
+                self.st = Warm::Ready;
+                self.waited = true;
+            }
+            _ => {}
+        }
         self.inner.poll_ready(cx)
     }
     fn call(&mut self, req: Req) -> ObsFut {
-        let k = self.calls.fetch_add(1, Ordering::SeqCst);
+        let k = self.sh.calls.fetch_add(1, Ordering::SeqCst);
+        if self.waited {
+            // an attempt whose clone became ready on its timer: when it calls is the runtime's choice
+            obs("rdy", format!("{}:{}", req.c, self.att));
+            self.waited = false;
+        }
+        log_raw(format!("#att {} {} {}", req.c, k, self.att));
         let f = self.inner.call(req);
-        ObsFut { f, k, was_pending: false }
+        ObsFut { f, k, was_pending: false, sh: self.sh.clone() }
+    }
+}
+
+/// The call future as the caller holds it. A poll by the caller that leaves the call pending although one of
+/// its attempts had already completed successfully before that poll is recorded: `#held <c> <t> <serial>`
+/// (nothing is recorded otherwise, so the marker never counts as progress of a healthy call).
+struct Polled<F> {
+    f: Pin<Box<F>>,
+    c: usize,
+    sh: Arc<Shared>,
+}
+impl<F: Future> Future for Polled<F> {
+    type Output = F::Output;
+    fn poll(mut self: Pin<&mut Self>, cx: &mut Context<'_>) -> Poll<F::Output> {
+        let avail = self.sh.first_ok.lock().unwrap().get(&self.c).cloned();
+        let r = self.f.as_mut().poll(cx);
+        if let (Some(k), true) = (avail, r.is_pending()) {
+            log_raw(format!("#held {} {} {}", self.c, now_ms(), k));
+        }
+        r
     }
 }
 
 pub struct Adapter {
     svc: Hedge<Obs>,
+    sh: Arc<Shared>,
 }
 
 impl Adapter {
@@ -82,17 +186,21 @@ impl Adapter {
             .get("ds")
             .map(|s| s.split(',').filter_map(|x| x.parse().ok()).collect())
             .unwrap_or_default();
+        let us = kv.str("unit", "ms") == "us";
+        let dur = move |v: u64| if us { Duration::from_micros(v) } else { Duration::from_millis(v) };
         let b = HedgeLayer::builder().max_hedged_attempts(max);
         let b = match kv.str("kind", "fixed").as_str() {
             "imm" => b.no_delay(),
             "fn" => b.delay_fn(move |n| {
-                let ms = if n >= 1 && n - 1 < ds.len() { ds[n - 1] } else { d };
-                Duration::from_millis(ms)
+                let v = if n >= 1 && n - 1 < ds.len() { ds[n - 1] } else { d };
+                dur(v)
             }),
-            _ => b.delay(Duration::from_millis(d)),
+            _ => b.delay(dur(d)),
         };
         let layer = b.build();
-        Adapter { svc: layer.layer(Obs { inner: Inner::new(), calls: Arc::new(AtomicU64::new(0)) }) }
+        let sh = Arc::new(Shared::default());
+        let obs = Obs { inner: Inner::new(), sh: sh.clone(), req: None, st: Warm::Fresh, att: 0, waited: false };
+        Adapter { svc: layer.layer(obs), sh }
     }
 }
 
@@ -106,7 +214,9 @@ pub fn render(r: Result<Resp, HedgeError<IErr>>) -> String {
 
 impl Mw for Adapter {
     fn arrive(&mut self, c: usize, kv: &Kv) -> Option<CallFut> {
+        *self.sh.cur.lock().unwrap() = Some(c);
         let mut svc = self.svc.clone();
+        *self.sh.cur.lock().unwrap() = None;
         let req = Req::new(c, kv);
         match poll_ready_once(&mut svc) {
             Poll::Ready(Ok(())) => {}
@@ -116,7 +226,13 @@ impl Mw for Adapter {
             }
         }
         let fut = svc.call(req);
-        Some(held(fut, render))
+        // from here on the fresh clones made for this request follow its readiness plan
+        let plan: VecDeque<Option<u64>> = kv
+            .get("warm")
+            .map(|s| s.split(',').filter(|x| !x.is_empty()).map(|x| x.parse().ok()).collect())
+            .unwrap_or_default();
+        self.sh.warm.lock().unwrap().insert(c, (plan, 0));
+        Some(held(Polled { f: Box::pin(fut), c, sh: self.sh.clone() }, render))
     }
     fn yields(&self) -> usize {
         8
